@@ -607,9 +607,9 @@ pub fn t7() -> BoxedStrategy<Value> {
     (
         0u8..48,
         (0u8..5, 0u8..3, 0u8..8, 0u8..4, any::<bool>()),
-        (0u32..4, 0u8..3, 0u8..3, any::<bool>()),
+        (0u32..4, 0u8..3, 0u8..3, any::<bool>(), 0u8..3),
     )
-        .prop_map(|(align, (k, how, tag, cell_sel, desired_null), (nth, k2, how2, tagged_expected))| {
+        .prop_map(|(align, (k, how, tag, cell_sel, desired_null), (nth, k2, how2, tagged_expected, cas_kind))| {
             let (a, b) = (0usize, 1usize);
             let mut t = TB::new(2);
             t.new_node(a, "X", None, None, 3, 20);
@@ -649,7 +649,13 @@ pub fn t7() -> BoxedStrategy<Value> {
             };
             restamp(&mut t, b, k, how);
             // CAS with the old expected: must succeed; optionally parked before its nth hardware CAS
-            t.cas(a, C::Root(cell_sel % 2), Some("e"), if desired_null { None } else { Some("D") }, true, "prev", "cur");
+            match cas_kind {
+                0 | 1 => t.cas(a, C::Root(cell_sel % 2), Some("e"), if desired_null { None } else { Some("D") }, true, "prev", "cur"),
+                _ => {
+                    t.cas_tag(a, C::Root(cell_sel % 2), "e", tag.wrapping_add(1), "r");
+                    t.clone_rc(a, "X", "prev");
+                }
+            }
             if nth > 0 {
                 t.run_until_site(a, site::LINK_CAS, nth);
                 restamp(&mut t, b, k2, how2);
@@ -670,9 +676,9 @@ pub fn t7w() -> BoxedStrategy<Value> {
     (
         0u8..48,
         (0u8..5, 0u8..3, 0u8..8, 0u8..3, any::<bool>()),
-        (0u32..3, 0u8..3),
+        (0u32..3, 0u8..3, any::<bool>()),
     )
-        .prop_map(|(align, (k, source, tag, how, desired_null), (nth, k2))| {
+        .prop_map(|(align, (k, source, tag, how, desired_null), (nth, k2, tag_cas))| {
             let (a, b) = (0usize, 1usize);
             let mut t = TB::new(2);
             t.new_node(a, "X", None, None, 3, 20);
@@ -719,7 +725,11 @@ pub fn t7w() -> BoxedStrategy<Value> {
                 t.unpin(b, 0);
                 t.run(b);
             }
-            t.wcas(a, WC::Root(0), Some("e"), if desired_null { None } else { Some("wd") }, true, "prev", "cur");
+            if tag_cas {
+                t.wcas_tag(a, WC::Root(0), "e", tag.wrapping_add(k2), "r");
+            } else {
+                t.wcas(a, WC::Root(0), Some("e"), if desired_null { None } else { Some("wd") }, true, "prev", "cur");
+            }
             if nth > 0 {
                 t.run_until_site(a, site::WLINK_CAS, nth);
                 // meanwhile the same weak pointer is installed again, carrying other epoch bits:
